@@ -39,9 +39,18 @@ import vlib
 PREFIX = {"C02": "C02_", "C03": "C03_", "C04": "C04_", "C15": "C15_"}
 
 
-def build(ctx):
-    ov = vlib.overlay_for(ctx, hook_pkgs=[("serf", "serf_state")])
-    return vlib.go_build(ctx, "replica", overlay=ov)
+RACE_FUNCS = ["Serf.handleNodeJoin", "Serf.handleNodeLeave", "Serf.handleNodeUpdate", "Serf.handleNodeLeaveIntent",
+              "Serf.handleNodeJoinIntent", "Serf.handlePrune", "Serf.eraseNode"]
+
+
+def build(ctx, instrumented=False):
+    """instrumented: the membership handlers of serf.go carry yield points and cooperative locks (for the C16 handler races);
+    the plain build only adds the (inert) yield hook variables the driver refers to."""
+    replaced = {}
+    if instrumented:
+        replaced = vlib.instrument(ctx, [{"file": "serf/serf.go", "funcs": RACE_FUNCS, "locks": True, "require": RACE_FUNCS}])
+    ov = vlib.overlay_for(ctx, hook_pkgs=[("serf", "serf_state"), ("serf", "serf_yield")], replaced=replaced)
+    return vlib.go_build(ctx, "replica", overlay=ov, name="bin-replica-instr" if instrumented else None)
 
 
 def consts(nn, maxlt, steps):
